@@ -10,6 +10,8 @@ CONSTANTS
   MaxSteps = 0
   Pows = {}
   Fault = FALSE
+  MaxUnits = 0
+  Cached = FALSE
 INVARIANT AtEnd
 POSTCONDITION Accepted
 CHECK_DEADLOCK FALSE
